@@ -47,8 +47,9 @@ def run(chk):
                 "length of '::' (all 36 (start, length) zero runs incl. leading, trailing and '::' alone) x upper/lower case x with/"
                 "without leading zeros; malformed texts (extra/missing groups, two '::', ':::', groups beyond ffff / 255 / ff, stray "
                 "separators, empty text); distinct = distinct (family, form class, outcome)")
-    chk.assumptions = ["non-standard but tolerated spellings (signs, leading zeros in dotted quads, one-digit MAC octets, IPv4-mapped mixed "
-                       "notation) are outside the property and not judged"]
+    chk.assumptions = ["non-standard but tolerated spellings (leading zeros in dotted quads, one-digit MAC octets) may be rejected or accepted; when "
+                       "accepted they must store the address they obviously denote (zero-padded / decimal reading)",
+                       "signs and IPv4-mapped mixed notation are outside the property and not judged"]
     chk.floor = 800
     work = core.scratch_dir()
     try:
@@ -71,6 +72,15 @@ def run(chk):
             valid.append(("ip4", ".".join(str(b) for b in raw), raw, "dotted"))
         v6s = [bytes(16), b"\xff" * 16, bytes(15) + b"\x01", b"\x00\x01" + bytes(14), b"\x20\x01\x0d\xb8" + bytes(11) + b"\x01",
                b"\xfe\x80" + bytes(6) + b"\x02\x00\x5e\xff\xfe\x00\x53\x01"]
+        # prefixes a display routine may treat specially (IPv4-mapped, IPv4-compatible, NAT64, loopback-like, documentation)
+        for _ in range(4):
+            v6s.append(bytes(10) + b"\xff\xff" + pkt.rand_bytes(rng, 4))
+            v6s.append(bytes(12) + pkt.rand_bytes(rng, 4))
+            v6s.append(b"\x00\x64\xff\x9b" + bytes(8) + pkt.rand_bytes(rng, 4))
+            v6s.append(bytes(8) + b"\xff\xff" + bytes(2) + pkt.rand_bytes(rng, 4))
+            v6s.append(bytes(14) + pkt.rand_bytes(rng, 2))
+        v6s += [bytes(10) + b"\xff\xff" + bytes([192, 168, 0, 1]), bytes(10) + b"\xff\xff" + bytes(4), bytes(12) + bytes([1, 2, 3, 4]), bytes(15) + b"\x02",
+                b"\xff\x02" + bytes(13) + b"\x01", bytes(10) + b"\xff\xfe" + bytes([10, 0, 0, 1])]
         # one address per (start, length) zero run so that all 36 compressions occur
         for start in range(8):
             for ln in range(1, 9 - start):
@@ -125,7 +135,78 @@ def run(chk):
             inp, path, size, dst_off = fam_cfg[fam]
             cases.append(Case("x%d" % k, "let __o = []; let p = pcap_read_next(pcap_open(%s)); let L = %s; L.dst = %s; push(__o, L.dst);" % (lit(inp), path, lit(t)),
                               {"globals": "__o", "steps": 100000}))
+        # ---- the text of one address assigned to the other one (dst := src, src := dst, swaps in both orders)
+        cross = []
+        for fam in ("mac", "ip4", "ip6"):
+            inp, path, size, dst_off = fam_cfg[fam]
+            for order in range(4):
+                prog = "let __o = []; let p = pcap_read_next(pcap_open(%s)); let L = %s; let s0 = L.src; let d0 = L.dst; " % (lit(inp), path)
+                if order == 0:
+                    prog += "L.dst = L.src; push(__o, [L.src == s0, L.dst == s0]);"
+                    want = ["true", "true"]
+                elif order == 1:
+                    prog += "L.src = L.dst; push(__o, [L.src == d0, L.dst == d0]);"
+                    want = ["true", "true"]
+                elif order == 2:
+                    prog += "L.dst = s0; L.src = d0; push(__o, [L.src == d0, L.dst == s0]);"
+                    want = ["true", "true"]
+                else:
+                    prog += "L.src = d0; L.dst = s0; push(__o, [L.src == d0, L.dst == s0]); L.dst = L.dst; L.src = L.src; push(__o, [L.src == d0, L.dst == s0]);"
+                    want = ["true", "true", "true", "true"]
+                cid = "c-%s-%d" % (fam, order)
+                cases.append(Case(cid, prog, {"globals": "__o", "steps": 100000}))
+                cross.append((cid, fam, order, want, prog))
+        # ---- spellings that are tolerated rather than standard: either rejected, or the address they obviously denote
+        tolerated = []
+        for _ in range(12 if quick else 300):
+            raw = pkt.rand_bytes(rng, 6)
+            raw = bytes(b if rng.random() < 0.5 else b & 0x0F for b in raw)
+            t = ":".join(("%x" % b) for b in raw)           # one-digit groups where the octet is below 16
+            tolerated.append(("mac", t, raw))
+            raw4 = bytes(rng.choice([0, 1, 7, 9, 10, 77, 99, 100]) for _ in range(4))
+            tolerated.append(("ip4", ".".join(rng.choice(["%d", "%02d", "%03d"]) % b for b in raw4), raw4))
+        tolerated += [("mac", "aa:b:cc:d:ee:f", bytes([0xaa, 0x0b, 0xcc, 0x0d, 0xee, 0x0f])), ("mac", "0:1:2:3:4:5", bytes(range(6))), ("mac", "1:2:3:4:5:6", bytes(range(1, 7)))]
+        for k, (fam, t, raw) in enumerate(tolerated):
+            inp, path, size, dst_off = fam_cfg[fam]
+            outp = os.path.join(work, "t%d.pcap" % k)
+            cases.append(Case("t%d" % k, "let __o = []; let p = pcap_read_next(pcap_open(%s)); let L = %s; L.dst = %s; push(__o, L.dst); pcap_write(pcap_open(%s, \"w\"), p);"
+                              % (lit(inp), path, lit(t), lit(outp)), {"globals": "__o", "steps": 100000}))
         res = core.run_cases(cases)
+        for cid, fam, order, want, prog in cross:
+            r = res.get(cid)
+            if r is None:
+                chk.inconc("missing result")
+                continue
+            chk.observed((fam, "cross", order))
+            got = [show(x) for x in canon_dump(r["globals"]["__o"])[1]] if r.get("outcome") == "ok" and "globals" in r else None
+            flat = []
+            for g in (got or []):
+                flat += [x.strip() for x in g.strip("[]").split(",")]
+            if flat != want:
+                chk.violation("cross|%s|%d" % (fam, order), "assigning the displayed text of one %s address to the other one: %s gives %s (%s)" % (
+                    fam, prog.split("let d0 = L.dst; ")[1], got, r.get("rt") or r.get("outcome")), {"src": prog})
+        for k, (fam, t, raw) in enumerate(tolerated):
+            r = res.get("t%d" % k)
+            if r is None:
+                chk.inconc("missing result")
+                continue
+            oc = r.get("outcome")
+            inp, path, size, dst_off = fam_cfg[fam]
+            off_ = 0 if fam == "mac" else dst_off
+            if oc == "panic":
+                chk.violation("panic|" + core.panic_site_sig(r["panic"]["loc"], r["panic"]["msg"]), "address text %r panics" % t, {"text": t})
+            elif oc == "rt_error":
+                chk.observed((fam, "tolerated-form", "rejected"))
+            elif oc == "ok":
+                chk.observed((fam, "tolerated-form", "accepted"))
+                try:
+                    _, recs, _ = pkt.parse_pcap(open(os.path.join(work, "t%d.pcap" % k), "rb").read())
+                    stored = recs[0][4][off_:off_ + size]
+                except (OSError, IndexError):
+                    stored = None
+                if stored != raw:
+                    chk.violation("tolerated-form-misread|%s" % fam, "the %s text %r is accepted but stores %s, not %s" % (
+                        fam, t, stored.hex() if stored else None, raw.hex()), {"text": t})
         for cid, (fam, batch, outp, dst_off, size) in meta.items():
             r = res.get(cid)
             if r is None:
